@@ -322,6 +322,8 @@ class FrontEnd:
         elif "full_name" in names:
             d["full_name"] = self._prop(dt, "full_name")
             d["version"] = tuple(self._prop(dt, "version"))
+            if getattr(self, "deep", False):
+                d["nested"] = self.digest(dt)  # the referenced composite as it stands inside the referrer
         elif "bit_length" in names:
             d["bits"] = self._prop(dt, "bit_length")
         return d
@@ -387,6 +389,7 @@ class FrontEnd:
         handler (a recording print handler is passed), cwd; answers with plain values (no instances)"""
         from ..absint import Recorder
 
+        self.deep = bool(j.get("deep"))
         h = Recorder("print") if j.get("handler") else None
         if j.get("handler") == "falsy":
 
